@@ -49,6 +49,47 @@ class Loop(object):
         return '<Loop h=bb%d n=%d iter=%s>' % (self.header, len(self.blocks), short(self.iter_term, 120) if self.iter_term is not None else None)
 
 
+class Frame(object):
+    """one body as instantiated on a call chain from a root body: terms of the body are rewritten (`lift`) into the root's
+    vocabulary (parameters replaced by the call's arguments, closure upvars by the captured values).  Lets a rule treat
+    crate-local helpers and closures as if they were written inline in the root."""
+
+    def __init__(self, ctx, body, env, site, parent, at_bb, kind):
+        self.ctx, self.body, self.env, self.site, self.parent, self.at_bb, self.kind = ctx, body, env, site, parent, at_bb, kind
+
+    def lift(self, t):
+        if not self.env and not self.site:
+            return t
+        return self.ctx.eng.subst(t, self.env, self.site)
+
+    def calls(self):
+        return self.ctx.calls(self.body)
+
+    def args(self, bb):
+        return [self.lift(a) for a in self.ctx.args(self.body, bb)]
+
+    def result(self, bb):
+        return self.lift(self.ctx.result(self.body, bb))
+
+    def path_conditions(self, bb):
+        """[(frame, switch block, lifted cond, arms, targets)] from this block up to the root's entry"""
+        out = [(self, sw, self.lift(c), arms, tg) for (sw, c, arms, tg) in self.ctx.path_conditions(self.body, bb)]
+        if self.parent is not None:
+            out += self.parent.path_conditions(self.at_bb)
+        return out
+
+    def loops(self, bb):
+        """[(frame, loop, lifted iterator term)] outermost first, across the call chain"""
+        mine = [(self, lp, self.lift(lp.iter_term) if lp.iter_term is not None else None) for lp in self.ctx.enclosing_loops(self.body, bb)]
+        return (self.parent.loops(self.at_bb) if self.parent is not None else []) + mine
+
+    def chain(self):
+        return (self.parent.chain() if self.parent is not None else []) + [self]
+
+    def __repr__(self):
+        return '<Frame %s%s>' % (self.body.path.split('::')[-1], ' <- ' + repr(self.parent) if self.parent is not None else '')
+
+
 class Ctx(object):
     def __init__(self, facts, eng, rep, cfg, tier):
         self.facts = facts
@@ -103,6 +144,117 @@ class Ctx(object):
                 continue
             out.append((bb, t))
         return out
+
+    def frames(self, root, depth=2, stop=()):
+        """the root body and, transitively to `depth`, the crate-local non-trait helpers it calls and the closures it creates,
+        each as a Frame whose terms can be lifted into the root's vocabulary"""
+        key = (root.key, depth, tuple(sorted(stop)))
+        cache = self.__dict__.setdefault('_frames', {})
+        if key in cache:
+            return cache[key]
+        from .terms import mk_elem
+        out = [Frame(self, root, {}, (), None, None, 'root')]
+        work = [(out[0], depth)]
+        while work and len(out) < 80:
+            fr, d = work.pop(0)
+            if d <= 0:
+                continue
+            b = fr.body
+            onchain = {f.body.key for f in fr.chain()}
+            for bb, t in self.calls(b):
+                nm = callee_name(t)
+                cal = self.facts.fn.get(nm)
+                if cal is None or cal.impl_trait or cal.is_closure or cal.key in onchain or nm in stop:
+                    continue
+                env = {('param', cal.key, i + 1): a for i, a in enumerate(fr.args(bb))}
+                f2 = Frame(self, cal, env, fr.site + ((b.key, bb),), fr, bb, 'call')
+                out.append(f2)
+                work.append((f2, d - 1))
+            for blk in b.blocks:
+                if blk['cleanup'] or blk['i'] not in self.cfgof(b).reach_set:
+                    continue
+                for si, st in enumerate(blk['stmts']):
+                    if st['k'] == 'assign' and st['rv']['k'] == 'aggregate' and st['rv']['kind'].get('a') == 'closure':
+                        cb = self.facts.fn.get(st['rv']['kind']['path'])
+                        if cb is None or cb.key in onchain:
+                            continue
+                        env = {}
+                        for j, o in enumerate(st['rv']['ops']):
+                            env[('upvar', cb.key, j)] = fr.lift(self.eng.operand(b, blk['i'], si, o))
+                        if not st['place']['p']:
+                            it = self.eng.applied_to(b, blk['i'], st['place']['l'])
+                            if it is not None:
+                                env[('param', cb.key, 2)] = fr.lift(mk_elem(self.eng, it))
+                        f2 = Frame(self, cb, env, fr.site + ((b.key, blk['i']),), fr, blk['i'], 'closure')
+                        out.append(f2)
+                        work.append((f2, d - 1))
+        cache[key] = out
+        return out
+
+    def flat_calls(self, root, pred, depth=2, stop=()):
+        """[(frame, bb, terminator, lifted args)] of the call sites whose resolved callee name satisfies pred, in the root and in
+        the helpers / closures reachable from it"""
+        res = []
+        for fr in self.frames(root, depth, stop):
+            for bb, t in fr.calls():
+                if pred(callee_name(t), t):
+                    res.append((fr, bb, t, fr.args(bb)))
+        return res
+
+    def alternatives(self, body, bb, idx, op):
+        """[(value term, defining block)] of an operand that is a local with several whole definitions on different paths
+        (`let x = match .. { A => a, B => b }`): one entry per definition; a single entry otherwise"""
+        ix = self.eng.bx(body)
+        l = op['place']['l'] if op['k'] in ('copy', 'move') and not op['place']['p'] else None
+        hops = 0
+        while l is not None and hops < 6:
+            wd = ix.whole_defs(l)
+            if len(wd) == 1 and wd[0][2] == 'assign' and wd[0][3]['rv']['k'] == 'use' and wd[0][3]['rv']['op']['k'] in ('copy', 'move') and not wd[0][3]['rv']['op']['place']['p']:
+                l = wd[0][3]['rv']['op']['place']['l']
+                hops += 1
+                continue
+            if len(wd) >= 2:
+                out = []
+                for (dbb, didx, kind, node) in wd:
+                    if kind == 'call':
+                        out.append((self.eng.call_result(body, dbb), dbb))
+                    else:
+                        out.append((self.eng.rvalue(body, dbb, didx, node['rv']), dbb))
+                return out
+            break
+        return [(self.eng.operand(body, bb, idx, op), bb)]
+
+    def closure_site(self, cbody):
+        """(parent body, block, statement index, capture operands) of the place a closure body is created, or None"""
+        idx = self.__dict__.setdefault('_csites', None)
+        if idx is None:
+            idx = {}
+            for b in self.facts.fns():
+                for blk in b.blocks:
+                    if blk['cleanup']:
+                        continue
+                    for si, s in enumerate(blk['stmts']):
+                        if s['k'] == 'assign' and s['rv']['k'] == 'aggregate' and s['rv']['kind'].get('a') == 'closure':
+                            idx.setdefault(s['rv']['kind']['path'], (b, blk['i'], si, s))
+            self._csites = idx
+        return idx.get(cbody.path)
+
+    def lift(self, cbody, term):
+        """(parent body, creation block, term in the parent's vocabulary): upvars replaced by the captured values, the
+        closure parameter by the element of the iterator the closure is applied to; None when the body is not a closure"""
+        cs = self.closure_site(cbody)
+        if cs is None:
+            return None
+        pb, bb, si, s = cs
+        env = {}
+        for j, o in enumerate(s['rv']['ops']):
+            env[('upvar', cbody.key, j)] = self.eng.operand(pb, bb, si, o)
+        if not s['place']['p']:
+            it = self.eng.applied_to(pb, bb, s['place']['l'])
+            if it is not None:
+                from .terms import mk_elem
+                env[('param', cbody.key, 2)] = mk_elem(self.eng, it)
+        return pb, bb, self.eng.subst(term, env, ())
 
     def args(self, body, bb):
         return self.eng.call_args(body, bb)
